@@ -11,12 +11,12 @@ set_option linter.unusedVariables false
 def SImp.WF (O : Oracle) (M : List Cps) : SImp → Prop
   | .comment _ => True
   | .unknown t => UnknownRuleOk M t
-  | .import_ _ _ href _ mq => ImportWF O href mq
+  | .import_ _ _ href _ mq name => ImportWF O href mq name
 
 def SImp.parsed : SImp → Rule
   | .comment b => .comment (commentTok b)
   | .unknown t => .unknown t
-  | .import_ kw g1 href g2 mq => .at_ .import_ (SImp.import_ kw g1 href g2 mq).toks
+  | .import_ kw g1 href g2 mq name => .at_ .import_ (SImp.import_ kw g1 href g2 mq name).toks
 
 def SNs.parsed : SNs → Rule
   | .comment b => .comment (commentTok b)
@@ -57,17 +57,18 @@ theorem sheetLoop_charset (O : Oracle) (M : List Cps) (c : Quote × Cps) (x : Li
 
 /-! ## the `@import` section -/
 
-theorem import_shape (kw : Mask) (g1 : Gap) (href : SHref) (g2 : Gap) (mq : Option (List Tok × Gap))
+theorem import_shape (kw : Mask) (g1 : Gap) (href : SHref) (g2 : Gap) (mq : Option (List Tok × Gap)) (name : SName)
     (hm : ∀ p, mq = some p → QB .default p.1) :
-    ∃ rest, (SImp.import_ kw g1 href g2 mq).toks = atTok .importSym kw "import" :: rest ∧
+    ∃ rest, (SImp.import_ kw g1 href g2 mq name).toks = atTok .importSym kw "import" :: rest ∧
       StmtShape (atTok .importSym kw "import") rest := by
   have hmq : QB .default (impMqToks mq) := by
     cases mq with
     | none => exact QB.nil _
     | some p => obtain ⟨m, g3⟩ := p; exact (hm (m, g3) rfl).append ((gapL_toks g3).qb _)
-  have hg : QB .default (Gap.toks g1 ++ href.tok :: (Gap.toks g2 ++ impMqToks mq)) :=
-    ((gapL_toks g1).qb _).append (QB.cons href.tok_flat (((gapL_toks g2).qb _).append hmq))
-  refine ⟨(Gap.toks g1 ++ href.tok :: (Gap.toks g2 ++ impMqToks mq)) ++ [semiTok], ?_,
+  have hg : QB .default (Gap.toks g1 ++ href.tok :: (Gap.toks g2 ++ (impMqToks mq ++ nameToks name))) :=
+    ((gapL_toks g1).qb _).append (QB.cons href.tok_flat (((gapL_toks g2).qb _).append
+      (hmq.append (nameToks_qb .default rfl name))))
+  refine ⟨(Gap.toks g1 ++ href.tok :: (Gap.toks g2 ++ (impMqToks mq ++ nameToks name))) ++ [semiTok], ?_,
     stmtShape_semi _ _ (atTok_default_flat .importSym kw "import" (by decide) (by decide) (by decide)) hg⟩
   simp [SImp.toks]
 
@@ -95,11 +96,11 @@ theorem sheetLoop_simp (O : Oracle) (M : List Cps) (hO : AtFaithful O) (i : SImp
     · simp
     · simp; omega
     · simp [hb, blocksImport, Rule.kind, Kind.isBody]
-  | import_ kw g1 href g2 mq =>
-    have h : ImportWF O href mq := h
-    obtain ⟨rest, e, hs⟩ := import_shape kw g1 href g2 mq (fun p hp => (h.mqWF p hp).1.qd)
-    have hr := importRule_render O kw g1 href g2 mq h
-    have hok : O.atOk .importSym false (SImp.import_ kw g1 href g2 mq).toks = true := by
+  | import_ kw g1 href g2 mq name =>
+    have h : ImportWF O href mq name := h
+    obtain ⟨rest, e, hs⟩ := import_shape kw g1 href g2 mq name (fun p hp => (h.mqWF p hp).1.qd)
+    have hr := importRule_render O kw g1 href g2 mq name h
+    have hok : O.atOk .importSym false (SImp.import_ kw g1 href g2 mq name).toks = true := by
       rw [hO.import_, hr]; rfl
     have ht : (atTok .importSym kw "import").typ = .importSym := rfl
     have he' : ¬ st.expected > 1 := by omega
@@ -424,9 +425,9 @@ theorem SImp.proj_parsed (O : Oracle) (M : List Cps) (i : SImp) (h : i.WF O M) :
   cases i with
   | comment b => simp [SImp.parsed, projRule, SImp.erase, commentTok, commentBody, commentVal]
   | unknown t => simp [SImp.parsed, projRule, SImp.erase]
-  | import_ kw g1 href g2 mq =>
-    have h : ImportWF O href mq := h
-    simp only [SImp.parsed, projRule, projAt, importRule_render O kw g1 href g2 mq h, SImp.erase]
+  | import_ kw g1 href g2 mq name =>
+    have h : ImportWF O href mq name := h
+    simp only [SImp.parsed, projRule, projAt, importRule_render O kw g1 href g2 mq name h, SImp.erase]
     cases mq with
     | none => rfl
     | some p =>
